@@ -3,7 +3,7 @@
 and record which checks catch which change in /verif/seeded/RESULTS.json.
 usage: evalall.py [seed-name ...]"""
 import json, os, subprocess, sys, glob, shutil
-WT='/tmp/evalwt'; EV='/tmp/evalverif'; PC=os.environ.get('PCHECK','/verif/bin/pcheck')
+WT=os.environ.get('WT','/tmp/evalwt'); EV=WT+'_verif'; PC=os.environ.get('PCHECK','/verif/bin/pcheck')
 def sh(cmd, **kw): return subprocess.run(cmd, shell=True, capture_output=True, text=True, **kw)
 if not os.path.isdir(WT):
     sh(f'git -C /repo worktree add -f {WT} HEAD')
@@ -13,7 +13,7 @@ shutil.copy('/verif/known-findings.txt', EV)
 claimed=[c['property_id'] for c in json.load(open('/verif/MANIFEST.json'))['checks']]
 lexer={'C01','C02','C06','C07','C09','C10','C11','C12','C15'}
 names=sys.argv[1:] or sorted(os.path.basename(d) for d in glob.glob('/verif/seeded/C*-m*'))
-resf='/verif/seeded/RESULTS.json'
+resf=os.environ.get('OUT','/verif/seeded/RESULTS.json')   # OUT: partial results of a parallel run, merged afterwards
 res=json.load(open(resf)) if os.path.exists(resf) else {}
 for n in names:
     prop=n.split('-')[0]
